@@ -266,3 +266,50 @@ Theorem C20_roundtrip_linked_discharged :
 Proof. exact BlkInstLinkedFile.c20_linked. Qed.
 Print Assumptions C20_roundtrip_linked_discharged.
 (* ================================================================ end of [stream/lnk6] *)
+
+(* ---- NO hypothesis about block compressors left, for independent blocks (lz4file.c: level 0, no dictionary): the LZ4F
+   model's block compressor is the model of LZ4_compress_fast_extState_fastReset (Proofs/BlkInst.v), its context before
+   each call being any state satisfying the fast compressor's context invariant (states_ok) ---- *)
+From LZ4V Require Import Model.FastApi Model.HcMidApi Model.HcChainApi Model.HcOptApi.
+From LZ4V Require Import Proofs.BlkInst Proofs.BlkFrameInst Proofs.BlkFileInst.
+
+Theorem C20_roundtrip_indep_unconditional : forall sf sm sh, states_ok sf sm sh ->
+  forall (p : prefs) (mw : nat) (bufs : list (list byte)) (sizes : list nat) (junk : list byte),
+    p_linked p = false ->
+    maxWrite_of (Some p) = Some mw -> FileProofs.csize_ok (Some p) (concat bufs) -> prefs_wf (Some p) ->
+    (Z.of_nat (length (concat bufs)) < FrameC.U64)%Z -> bytes_ok (concat bufs) = true ->
+    exists file : list byte,
+      write_session FrameC.cctx FrameC.cctx_zero fc_begin (fc_update (blk_indep 0 sf sm sh)) (fc_end (blk_indep 0 sf sm sh)) (Some p) bufs
+        = (FOk (map (fun b => FOk (length b)) bufs), file) /\
+      frame_ok file (concat bufs) /\
+      read_session dstate dctx_init fd_info fd_dec true junk file sizes = FOk (chop (concat bufs) sizes).
+Proof. exact roundtrip_indep_unconditional. Qed.
+Print Assumptions C20_roundtrip_indep_unconditional.
+
+(* Non-vacuity: 48 compressible bytes written in two pieces through the instantiated model (fresh lz4 context before each
+   block), 64 KB independent blocks with content checksum: the file is shorter than the content and reads back *)
+Example C20_indep_unconditional_run :
+  let blk := blk_indep 0 (fun _ => ctx_init) (fun _ => hc_init) (fun _ => cc_init) in
+  let p := mkPrefs 4 false true 0 0 false false in
+  let content := (repeat 97 40 ++ [1; 2; 3; 4; 5; 6; 7; 8])%Z in
+  let '(w, file) := write_session FrameC.cctx FrameC.cctx_zero fc_begin (fc_update blk) (fc_end blk) (Some p)
+                                  [repeat 97%Z 40; [1; 2; 3; 4; 5; 6; 7; 8]%Z] in
+  w = FOk [FOk 40%nat; FOk 8%nat] /\ Nat.ltb (length file) 48 = true /\ frame_ok file content /\
+  read_session dstate dctx_init fd_info fd_dec true [] file [50%nat; 1%nat] = FOk (chop content [50%nat; 1%nat]).
+Proof. vm_compute. repeat split; reflexivity. Qed.
+
+(* any preferences (lz4file.c's default is LINKED blocks): the block compressor is the model of LZ4_compress_fast_continue
+   (Proofs/BlkInstFastLinked.v), driven by an oracle of stream states satisfying the C11 invariants and consistent with the
+   history the LZ4F model offers *)
+From LZ4V Require Import Model.FastStream Proofs.BlkInstFastLinked.
+Theorem C20_roundtrip_stream_unconditional : forall st, (forall n, lorc_ok (st n)) ->
+  forall (po : option prefs) (mw : nat) (bufs : list (list byte)) (sizes : list nat) (junk : list byte),
+    maxWrite_of po = Some mw -> FileProofs.csize_ok po (concat bufs) -> prefs_wf po ->
+    (Z.of_nat (length (concat bufs)) < FrameC.U64)%Z -> bytes_ok (concat bufs) = true ->
+    exists file : list byte,
+      write_session FrameC.cctx FrameC.cctx_zero fc_begin (fc_update (blk_fast_linked st 0)) (fc_end (blk_fast_linked st 0)) po bufs
+        = (FOk (map (fun b => FOk (length b)) bufs), file) /\
+      frame_ok file (concat bufs) /\
+      read_session dstate dctx_init fd_info fd_dec true junk file sizes = FOk (chop (concat bufs) sizes).
+Proof. exact roundtrip_stream_unconditional. Qed.
+Print Assumptions C20_roundtrip_stream_unconditional.
